@@ -69,11 +69,7 @@ Theorem synth_uninit_arity_regression : forall v, fix_arity v = false ->
   nul_terminated (desc w_uninit) /\ parse v (desc w_uninit) = Fault FUninit.
 Proof. exact uninit_refuted. Qed.
 
-(* ---------------------------------------------------------------- *)
-(* Still false on the code as it is (known finding                     *)
-(* intlv-width-wraparound): totalwidth wraps modulo 2^64 and is used   *)
-(* as a divisor by the type-based interleaving.                        *)
-(* ---------------------------------------------------------------- *)
-Theorem synth_width_wraparound_refuted :
-  exists s, nul_terminated s /\ parse Cur s = Fault FDiv.
-Proof. exists (desc w_div). apply div_refuted. Qed.
+(* fixed by 6af4733 (products of arities guarded against wrap-around modulo 2^64): the description whose
+   total width wrapped to 0 and was then used as a divisor is now rejected *)
+Example synth_width_wraparound_rejected : parse Cur (desc w_div) = Rej.
+Proof. apply div_witness_rejected. Qed.
